@@ -2,7 +2,8 @@
    prior behaviour.  Statements only; proofs in Proofs/C12Proofs.v, the
    machine in Model/ConvStack.v. *)
 From Coq Require Import ZArith QArith List Bool.
-From QV Require Import Model.Num Model.Quantity Model.ConvStack Proofs.C12Proofs.
+From QV Require Import Model.Num Model.Quantity Model.ConvStack Proofs.C12Proofs
+     Gen.ConvStackImpl Proofs.GenConvStackEq.
 Import ListNotations.
 
 (* ---------------------------------------------------------------- Money *)
@@ -203,3 +204,21 @@ Example C12_ex_generic :
                 RErr EUnitConversion; RNone; RAmt (25 # 2); RErr EValueError;
                 RList [2; 0]%N]).
 Proof. vm_compute. reflexivity. Qed.
+
+(* the registration functions of the model ARE the code:
+   MoneyMeta.register_converter / remove_converter (MoneyConverter.__enter__ /
+   __exit__ checked to delegate to them) and QuantityMeta.register_converter /
+   remove_converter / registered_converters are re-translated on every run
+   (Gen/ConvStackImpl.v, fail-closed translator translate/cstack.py) and equal
+   the model for every stack and every converter *)
+Theorem C12_model_is_translated_code : forall ismc s c,
+  money_register_impl ismc s c = money_register ismc s c /\
+  money_remove_impl s c = money_remove s c /\
+  gen_register_impl s c = gen_register s c /\
+  gen_remove_impl s c = gen_remove s c /\
+  listing_impl s = listing s.
+Proof.
+  intros. split; [apply money_register_impl_eq|]. split; [apply money_remove_impl_eq|].
+  split; [apply gen_register_impl_eq|]. split; [apply gen_remove_impl_eq | apply listing_impl_eq].
+Qed.
+Print Assumptions C12_model_is_translated_code.
